@@ -67,6 +67,10 @@ func VC04Num() {
 	vrt.Note("outcome", oc)
 	vrt.NoteBytes("bytes", out)
 	if oc != "ok" || diagnosed() || len(out) == 0 {
+		// a numeric target inside the mode's address space is a valid
+		// statement: refusing it (the branch then simply is not there) is not
+		// "transferring control to exactly that address"
+		vrt.Assert(false, "c04.assembles")
 		vrt.Reach("c04.rejected")
 		return
 	}
